@@ -4,11 +4,13 @@
 -/
 import Driver.Codec
 import Driver.Span
+import Driver.Lines
 open Lean
 
 def dispatch (op : String) (j : Json) : Except String Json :=
   match op with
   | "span.tokenize" => Driver.Span.tokenizeOp j
+  | "lines.normalize" => Driver.Lines.normalizeOp j
   | "ping" => pure (Json.str "pong")
   | _ => throw s!"unknown op {op}"
 
